@@ -8,16 +8,12 @@ import (
 
 func main() {
 	if len(os.Args) < 2 {
-		fmt.Fprintln(os.Stderr, "usage: mon-misc <C07|C19|C20> [flags]")
+		fmt.Fprintln(os.Stderr, "usage: mon-misc <C20> [flags]")
 		os.Exit(64)
 	}
 	switch os.Args[1] {
 	case "C20":
 		runC20()
-	case "C19":
-		runC19()
-	case "C07":
-		runC07()
 	default:
 		fmt.Fprintln(os.Stderr, "unknown property", os.Args[1])
 		os.Exit(64)
